@@ -4,14 +4,15 @@
    had; globals keep their own name wherever they are used; the call lines of the script are the calls of the
    program in evaluation order (C04 theorems).
    Proved for functions whose body is a program of Sem/LoopPreserve.v (assignments, prints, conditionals, loops, calls of
-   earlier functions, simultaneous assignments) followed by one return statement, and for the call statements
+   earlier functions, simultaneous assignments, return at the end or inside if / else-if / else branches, or no return
+   for a function without results), and for the call statements
    x = f(..), x := f(..), x, y = f(..), x, y := f(..), f(..) with call-free arguments: the simulation itself
    (C02_function_refines, C02_calls_refined, C02_calls_preserved) - arguments are bound to the parameters in order, the
    body sees the globals in place and its own frame, the caller's locals are unchanged whatever the names, all returned
    values reach the return registers and the variables of the call site in order, at any nesting depth of calls; a
    simultaneous assignment x, y = e1, e2 evaluates every right-hand side in the old environment (J rule j_assign_multi:
    the values are parked in _ma<i> before the first store).  NOT covered by a theorem: slices as arguments, calls as
-   arguments or operands, return inside a branch or loop; these are decided on generated programs against Sem/Src.v, and the flat shell model
+   arguments or operands, return inside a loop; these are decided on generated programs against Sem/Src.v, and the flat shell model
    with the script's functions as its call oracle is compared with /bin/bash on every such program it is defined on. *)
 From Verif Require Import Base.Bytestr Front.Ast Back.BashLines Back.Transpile Back.BashConv Back.NameFacts Back.BashFacts
   Sem.Src Sem.BashSem Sem.ExprPreserve Sem.StmtPreserve Sem.IfPreserve Sem.FlatLoop Sem.LoopPreserve Sem.CallPreserve.
@@ -43,29 +44,29 @@ Theorem C02_call_lines_of_statement : forall st s s',
 Proof. exact C02_call_lines_of_statement_proof. Qed.
 Print Assumptions C02_call_lines_of_statement.
 
-(* One call of a function.  The callee: translated from sf (after its header) over sb (after its body) to sr (after its
-   return statement), variables XSf, function number b_func_counter sf, loop flags from klo_f on; it may call functions
-   with numbers below mlo_f through the oracle call, which refines scall.  The caller: any code at state s with variables
-   XS whose globals are the callee's globals, whose environment sg is represented by the shell environment b, which
-   protects the flags from klo_c on and the mangled names from function number mlo_c on.  If the source runs the body
-   from the frame  bind params vals (globals_of sg)  to sgl printing o, and the returned expressions have the values
-   rvals there, then the definition's lines - the local lines of the parameters, the body, the return - run with the
-   argument texts as positional parameters from b terminate printing o in an environment bF that represents
-   leave sg sgl  for the caller (globals as the function left them, the caller's own locals as they were), differs from b
-   on nothing the caller protects, and holds the text of the i-th returned value in the i-th return register. *)
+(* One call of a function.  The callee: its body translated from sf (after its header) to sr, variables XSf, function
+   number b_func_counter sf, loop flags from klo_f on; it may call functions with numbers below mlo_f through the oracle
+   call, which refines scall.  The caller: any code at state s with variables XS whose globals are the callee's globals,
+   whose environment sg is represented by the shell environment b, which protects the flags from klo_c on and the mangled
+   names from function number mlo_c on.  If the source runs the body from the frame  bind params vals (globals_of sg)  to
+   sgl printing o and ends it with  return e1, .., en  of values rvals - at the end of the body or inside if / else-if /
+   else branches - or, for a function without results, by reaching its end (ret_of), then the definition's lines - the local
+   lines of the parameters, the body, the closing brace - run with the argument texts as positional parameters from b
+   terminate printing o in an environment bF that represents  leave sg sgl  for the caller (globals as the function left
+   them, the caller's own locals as they were), differs from b on nothing the caller protects, and holds the text of the
+   i-th returned value in the i-th return register. *)
 Theorem C02_function_refines : forall call, fuel_mono call -> forall klo_f mlo_f scall, call_refines call klo_f mlo_f scall ->
-  forall klo_c mlo_c XSf sf sb sr params body es u u2 XS s b sg vals sgl o rvals,
+  forall klo_c mlo_c XSf sf sr params body u XS s b sg vals sgl o g rvals,
   (0 < b_funcs sf)%nat -> (b_func_counter sf < mlo_c)%nat -> (mlo_f <= mlo_c)%nat -> (b_for_counter sr <= klo_c)%nat ->
   (forall x, In x XSf -> var_fine sf x) -> hygienic sf XSf -> names_inj sf XSf -> fresh_flags klo_f mlo_f XSf sf ->
   (forall p, In p params -> v_global p = false /\ In p XSf) ->
   (forall x, v_global x = true -> (In x XS <-> In x XSf)) ->
-  go_fix body sf = TOk u sb -> frag2_all body = true -> t_stmt bash_conv (SReturn es) sb = TOk u2 sr ->
-  forallb pure es = true -> (forall e, In e es -> side XSf e) ->
+  go_fix body sf = TOk u sr -> frag2_all body = true ->
   length vals = length params -> env_ok (bind params vals (globals_of sg)) ->
-  J scall XSf (Prog body) (bind params vals (globals_of sg)) sgl o SN -> pevals sgl es = Some rvals ->
+  J scall XSf (Prog body) (bind params vals (globals_of sg)) sgl o g -> ret_of g rvals ->
   ctx_ok XS sg b s -> fresh_flags klo_c mlo_c XS s ->
   exists X bF, cext sf sr X /\
-    (forall rest, lruns call (map text vals) b [] (param_lines (b_func_counter sf) (map v_name params) 1 ++ X ++ rest) (bF, o)) /\
+    (forall rest, lruns call (map text vals) b [] (param_lines (b_func_counter sf) (map v_name params) 1 ++ X ++ [LClose] ++ rest) (bF, o)) /\
     ctx_ok XS (leave sg sgl) bF s /\ untouched klo_c mlo_c XS s s b bF /\
     (forall i v, nth_error rvals i = Some v -> sh_get (rv_name i) bF = text v).
 Proof. exact func_refines. Qed.
@@ -132,6 +133,16 @@ Example C02_swap_and_two_results :
   (exists X b', b_code SimSamples.s_dm_end = b_code SimSamples.s_dm_main ++ X /\
      lruns (call_of SimSamples.script_dm 1) [] [] [] X (b', bs "5 17 0 5" ++ [10])).
 Proof. exact (conj SimSamples.dm_fun_ok (conj SimSamples.swap_sample_derivation SimSamples.swap_sample_applies)). Qed.
+
+(* func abs(a int) int { if a < 0 { return 0 - a }; return a }   func show(a int) { print("v", a) }
+   x := abs(0 - 5); y := abs(3); show(x + y): a return inside a branch, a function without results, two definitions. *)
+Example C02_early_return_and_no_result :
+  fun_ok SimSamples.script_abs SimSamples.F_abs /\ fun_ok SimSamples.script_abs SimSamples.F_show /\
+  (exists sgF out, J (scall_at [SimSamples.F_abs; SimSamples.F_show] 1 0 3) SimSamples.XS_abs (Prog SimSamples.main_abs) SimSamples.sg_empty sgF out SN /\
+                   out = bs "v 8" ++ [10]) /\
+  (exists X b', b_code SimSamples.s_abs_end = b_code SimSamples.s_abs_main ++ X /\
+     lruns (call_of SimSamples.script_abs 1) [] [] [] X (b', bs "v 8" ++ [10])).
+Proof. exact (conj SimSamples.abs_fun_ok (conj SimSamples.show_fun_ok (conj SimSamples.abs_sample_derivation SimSamples.abs_sample_applies))). Qed.
 
 Example C02_sample : mangled 1 (bs "x") = bs "f1_x" /\ mangled 12 (bs "_h3") = bs "f12__h3".
 Proof. vm_compute. split; reflexivity. Qed.
